@@ -15,7 +15,7 @@ PROPS = {
                 "runIPServer listeners sharing the real timestamp store, gaps 10 ms..10 s (both sides of the 3 s interleave window), server clock offset from 0 to +-30 years with skew up to "
                 "+-100 ppm and steps between exchanges, worlds placed just before the 2036 era rollover, per-direction latency 0..21 ms plus long delays up to 2 s, drop/duplicate up to 30 %, "
                 "server-side missing/late kernel timestamps, optional ephemeral port reuse; non-trivial = at least two accepted exchanges were checked against ground truth; distinct = distinct event-log hash",
-        "required_probes": ["bound-checked", "interleaved-accepted", "basic-reply-to-interleaved-request", "measurement-failed", "near-era", "excluded-clock-step-inside-exchange", "scion-bound-checked", "scion-interleaved-accepted"],
+        "required_probes": ["bound-checked", "interleaved-accepted", "basic-reply-to-interleaved-request", "measurement-failed", "near-era", "excluded-clock-step-inside-exchange", "scion-bound-checked", "scion-interleaved-accepted", "forwarded-without-timestamp"],
         "components": {"real": ["core/client IPClient, MeasureClockOffsetIP", "core/server runIPServer, handleRequest, updateTXTimestamp", "net/udp (cmsg parsers, ReadTXTimestamp)", "net/ntp"],
                        "stub": dict(STUBS_COMMON, **{"kernel UDP stack": "simnet (sockets, SO_REUSEPORT group, control messages, error queue)"})},
         "assumptions": ["rounding allowance 16 ns (two truncating 2^-32 s conversions per timestamp and up to eight 1 ns receive-timestamp bumps)",
@@ -56,7 +56,7 @@ PROPS = {
         "assumptions": ["store capacity is lowered through a variable that replaces the uses of the constant tssCap at build time; the statement's 2^20 itself is only asserted by the thorough tier's capacity run",
                         "interleavings are explored at statement granularity; 'free of data races' is decided through atomicity (relation evaluated on snapshots at lock acquire/release), not with the race detector",
                         "snapshots are taken by the scheduler-side hooks without the lock"],
-        "required_probes": ["interleaved-served", "dropped-without-kernel-stamp", "kernel-stamp-recorded", "listener-identity-run", "cross-identity-request-served-basic"],
+        "required_probes": ["interleaved-served", "dropped-without-kernel-stamp", "kernel-stamp-recorded", "listener-identity-run", "cross-identity-request-served-basic", "same-instant-requests", "served-pair-is-kernel-pair"],
     },
     "C07": {
         "level": "exploration",
@@ -88,7 +88,7 @@ PROPS = {
                 "path meta header, authenticator options of 0..40 bytes, timestamp options holding crafted control messages, SCMP types; CSPTP truncations with consistent length fields; NTS-KE records with lying lengths, "
                 "cookies of 0..2000 bytes, non-IP server names, short port and AEAD records; garbage instead of a TLS handshake). After each burst a well-formed sentinel request on the same socket must be answered "
                 "(listeners) or a clean exchange must still succeed (clients); non-trivial = at least two crafted inputs; distinct = distinct event-log hash",
-        "required_probes": ["sentinel-answered", "mode:ip-listener", "mode:scion-listener", "mode:csptp-listener", "mode:ntske-server", "mode:ip-client", "mode:scion-client", "mode:csptp-client", "mode:ntske-client", "sealed-request-odd-identifier"],
+        "required_probes": ["sentinel-answered", "mode:ip-listener", "mode:scion-listener", "mode:csptp-listener", "mode:ntske-server", "mode:ip-client", "mode:scion-client", "mode:csptp-client", "mode:ntske-client", "sealed-request-odd-identifier", "ntske-client-over-scion"],
         "components": {"real": ["core/server runIPServer, runSCIONServer (NTP, SCMP, forwarder), runCSPTPServerIP, handleKeyExchangeTLS", "core/client IPClient, SCIONClient, CSPTPClientIP", "net/ntske Fetcher, ReadData, cookies",
                                 "net/nts, net/ntp, net/csptp, net/udp (cmsg parsers), net/scion auth.go", "gopacket/slayers decoding"],
                        "stub": dict(STUBS_COMMON, **{"kernel UDP/TCP": "simnet", "hostile peers": "scripted"}),
@@ -108,7 +108,7 @@ PROPS = {
                 "with ISD-AS, host and ports exchanged); later runs (every third over SCION) sample first bytes, lengths 0..2048, source ports, network duplicates and missing / nanosecond-form receive and missing / late transmit kernel timestamps at the listeners; every 8th reply is fed back with a forged source; "
                 "non-trivial = at least one datagram answered and one ignored; distinct = distinct event-log hash",
         "exhaustive_part": "first byte x length class x trailer class (17920 cases) enumerated completely against the IP listeners when the batch has at least 187 runs and against the SCION listeners when it has at least 374 (quick tier: 600 runs)",
-        "required_probes": ["answered", "ignored", "nts-answered", "reflection-checked", "answered-over-scion", "mixed-address-families", "via-endhost-port"],
+        "required_probes": ["answered", "ignored", "nts-answered", "reflection-checked", "answered-over-scion", "mixed-address-families", "via-endhost-port", "from-well-known-port", "cookies-under-previous-key"],
         "components": {"real": ["core/server runIPServer, runSCIONServer, handleRequest", "net/ntp DecodePacket, ValidateRequest", "net/nts DecodePacket, ProcessRequest", "net/ntske cookies, Provider"],
                        "stub": dict(STUBS_COMMON, **{"kernel UDP stack": "simnet", "senders": "scripted datagram injector"})},
         "assumptions": ["over SCION the reply's path reversal is C13's clause; here its addressing (previous hop, ISD-AS, host, ports) is checked",
@@ -124,7 +124,7 @@ PROPS = {
                 "later runs (every 4th of them over SCION) sample bit flips, responses correctly re-sealed under the session key but with a longer / shorter / one-bit-different unique identifier, every 16-bit length word set to 0,1,3,4,-4,+4,0xffff,15,16,17, the client's own request reflected as a response, a genuine response to an earlier request replayed, and unmodified replays; "
                 "non-trivial = at least two tampered packets judged; distinct = distinct event-log hash",
         "exhaustive_part": "single-bit flips of one request and one response at pool level 8: 4032 cases, enumerated completely over IP when the batch has at least 32 runs and again over SCION when it has at least 64 (quick tier: 160 runs)",
-        "required_probes": ["genuine-accepted", "request-tamper-rejected", "response-tamper-rejected", "genuine-accepted-after-tampered", "unauthenticated-position", "resealed-other-identifier", "transport:scion", "zero-tail-cut"],
+        "required_probes": ["genuine-accepted", "request-tamper-rejected", "response-tamper-rejected", "genuine-accepted-after-tampered", "unauthenticated-position", "resealed-other-identifier", "transport:scion", "zero-tail-cut", "genuine-copy-behind-forged-request"],
         "components": {"real": ["net/nts DecodePacket, ProcessRequest, ProcessResponse, authenticate", "net/ntske cookies (Decode, Decrypt), Provider", "core/server runIPServer, runSCIONServer (NTS branches)", "core/client IPClient, SCIONClient (NTS branches)", "NTS-KE over real TLS"],
                        "stub": dict(STUBS_COMMON, **{"kernel UDP/TCP": "simnet", "attacker": "scripted re-delivery of captured packets", "SCION border routers": "one relay router", "NTS-KE transport of the SCION client": "TLS on simulated TCP (production wiring: QUIC over SCION, not simulated)"})},
         "assumptions": ["a change is 'accepted' by a listener iff it answers at all (with or without NTS fields), by the client iff the tampered datagram is the one it had read last when it reported an offset",
@@ -154,7 +154,7 @@ PROPS = {
         "rule": "one run = 1..8 concurrent callers x 4..31 scripted Current()/Get(id) calls on the real ntske.Provider over up to "
                 "~30 virtual days (gaps drawn around 24h/2d/3d boundaries), statement-level yields inside the Provider methods in 3/4 of "
                 "the runs; non-trivial = at least two distinct keys were seen and at least one Get hit; distinct = distinct event-log hash",
-        "required_probes": ["current-generated", "current-reused", "get-hit", "get-expired", "get-unknown"],
+        "required_probes": ["current-generated", "current-reused", "get-hit", "get-expired", "get-unknown", "long-history"],
         "components": {"real": ["net/ntske Provider (Current, Get, generateNext)", "crypto/rand via the process RNG"],
                        "stub": STUBS_COMMON},
         "assumptions": ["time.Now inside the provider is the bubble's virtual clock",
@@ -175,7 +175,7 @@ PROPS = {
                 "and each class of inadmissible one; every 8th run instead wires the whole IP service as timeservice.go does (sync.Run with syncConfig's defaults, 1..4 reference clocks from newNTPReferenceClockIP - real IPClient, "
                 "interleaved mode, Ntimed filter - each against real runIPServer listeners of its own host, with loss, duplication and delay) and checks one correction per round, the reference cap and the timeout; "
                 "non-trivial = at least 3 rounds completed or an inadmissible configuration refused; distinct = distinct event-log hash",
-        "required_probes": ["exact-round", "partial-round", "both-groups", "cutoff-suppressed", "clamped-ref", "clamped-peer", "inadmissible-refused", "wired-round", "wired-nonzero-correction", "real-clock-driver", "config-via-wiring"],
+        "required_probes": ["exact-round", "partial-round", "both-groups", "cutoff-suppressed", "clamped-ref", "clamped-peer", "inadmissible-refused", "wired-round", "wired-nonzero-correction", "real-clock-driver", "config-via-wiring", "peer-offset-exactly-at-cutoff"],
         "components": {"real": ["core/sync Run, measureOffsetToRefClks", "core/client ReferenceClockClient.MeasureClockOffsets, collectMeasurements",
                                 "core/measurements FaultTolerantMidpoint", "base/timemath",
                                 "driver/clocks SystemClock (Drift, Sleep through an absolute timerfd, Epoch) in 1/4 of the model runs"],
@@ -228,7 +228,7 @@ PROPS = {
                 "per round a tape-chosen subset of the paths is offered (some listed twice, some without a fingerprint, order shuffled), packets are lost at the routers in half of the runs; every 50th run first enumerates crypto.Sample "
                 "over every sequence of accepted draws for n <= 7, k <= 4 and RandIntn on the rejection boundary with crypto/rand.Reader replaced by a scripted reader; non-trivial = at least two rounds judged; distinct = distinct event-log hash",
         "exhaustive_part": "crypto.Sample: all draw sequences for n <= 7, k <= min(4,n) (each k-subset equally often); RandIntn residues/rejection at boundary words for n in {1,2,3,5,7,10,1000,2^20,2^31-1}",
-        "required_probes": ["round-checked", "multi-client-round", "sticky-path-kept", "reset-after-path-withdrawn", "no-path-error", "ftm-checked", "uniformity-enumerated", "reset-outside-interleaved-mode", "wired-reference-clock"],
+        "required_probes": ["round-checked", "multi-client-round", "sticky-path-kept", "reset-after-path-withdrawn", "no-path-error", "ftm-checked", "uniformity-enumerated", "reset-outside-interleaved-mode", "wired-reference-clock", "reset-in-round-without-paths"],
         "components": {"real": ["core/client MeasureClockOffsetSCION, SCIONClient", "base/crypto Sample, RandIntn", "core/measurements FaultTolerantMidpoint", "core/server runSCIONServer"],
                        "stub": dict(STUBS_COMMON, **{"border routers": "one scripted relay per offered path", "path lookup": "paths are handed to MeasureClockOffsetSCION directly (Pather not run)", "crypto/rand": "seeded per run; scripted reader for the enumeration"})},
         "assumptions": ["uniformity is decided on the random seam (enumeration of draw sequences), not statistically; positions within the chosen subset are not required to be uniform",
@@ -258,7 +258,7 @@ PROPS = {
         "rule": "one run = one filter instance (lucky-packet with capacity 1..64 and pick 1..80, unconfigured lucky-packet, or Ntimed) fed 1..80 samples that are the four "
                 "timestamps of simulated exchanges (true offset up to +-55 h, delays with 0..200 ms jitter, distinct round-trip delays for the lucky-packet comparison), "
                 "with an explicit Reset or a clock-epoch change (registered simulated clock stepped) at a tape-chosen position; non-trivial = at least two samples; distinct = distinct event-log hash",
-        "required_probes": ["window-full", "picked-subset", "unconfigured", "raw-early", "fresh-equal", "reset", "epoch-change", "raw-within-bounds", "outside-bounds"],
+        "required_probes": ["window-full", "picked-subset", "unconfigured", "raw-early", "fresh-equal", "reset", "epoch-change", "raw-within-bounds", "outside-bounds", "round-trip-delay-not-positive"],
         "components": {"real": ["core/client LuckyPacketFilter, NtimedFilter", "core/timebase.Epoch via the registered clock", "net/ntp ClockOffset/RoundTripDelay"],
                        "stub": dict(STUBS_COMMON)},
         "assumptions": ["Ntimed clause 'whenever a sample lies within its learned delay bounds' is checked only through the first-three-samples rule and the metamorphic reset check (the bounds are internal)",
@@ -271,7 +271,7 @@ PROPS = {
         "rule": "one run = 5..64 updates (offset over the whole int64 range with boundary values around 1 ms, weight in {0,1,3,3.0000001,4,49,50,100,149,150,1000,1e6}) of the real Pll at "
                 "gaps from 0 to 600 s on a simulated clock that records Step/Adjust, bumps its epoch on Step and is stepped from outside with probability 1/15 per update; "
                 "non-trivial = at least one Step or Adjust was requested; distinct = distinct event-log hash",
-        "required_probes": ["step", "adjust", "adjust-nonzero", "initial-step-decision", "epoch-restart", "real-clock-driver", "slew-ended-by-driver", "kernel-clock-stepped"],
+        "required_probes": ["step", "adjust", "adjust-nonzero", "initial-step-decision", "epoch-restart", "real-clock-driver", "slew-ended-by-driver", "kernel-clock-stepped", "weight-not-finite", "outage-hours-to-weeks"],
         "components": {"real": ["core/sync/adjustments Pll", "base/timemath",
                                 "driver/clocks SystemClock (Step, Adjust and the goroutine that ends a slew, Sleep, Epoch, Now) in 1/3 of the runs"],
                        "stub": dict(STUBS_COMMON, **{"kernel time interface under the real driver": "simkern: clock_gettime, clock_adjtime (ADJ_SETOFFSET|ADJ_NANO, ADJ_FREQUENCY limited to 500 ppm), absolute timerfd on a simulated node clock with an oscillator error of up to 50 ppm"})},
@@ -286,7 +286,7 @@ PROPS = {
                 "and record sequence are generated: next-protocol, AEAD (15 / other / absent), server and port records, 0..8 cookies of 0..104 bytes, error (codes 0,1,2,3,0x8000,0xffff), warning and "
                 "unknown (critical or not) records inserted anywhere, shuffled order, missing end-of-message, records after end-of-message, message written in one or many TLS records, connection cut "
                 "(FIN or reset) after 0..1500 bytes; non-trivial = at least one key exchange connection; distinct = distinct event-log hash",
-        "required_probes": ["exchange-succeeded", "exchange-failed", "keys-agree", "real-keys-agree", "destination-checked", "named-destination"],
+        "required_probes": ["exchange-succeeded", "exchange-failed", "keys-agree", "real-keys-agree", "destination-checked", "named-destination", "scion-client"],
         "components": {"real": ["net/ntske Fetcher, dialTLS, exchangeDataTLS, ReadData, ExportKeys", "core/server handleKeyExchangeTLS, newNTSKEMsg", "core/client IPClient (NTS request path)",
                                 "timeservice.go configureIPClientNTS", "crypto/tls (client and server handshakes, exporters)", "net/nts NewRequestPacket/EncodePacket"],
                        "stub": dict(STUBS_COMMON, **{"TCP": "simnet streams (in-order bytes, segmentation, FIN/reset at a byte offset)", "scripted peer": "tls.Server with generated record stream"}),
